@@ -38,6 +38,15 @@ CLAIMED = {
              "violated by the code (known finding K1, identified by a semantic fingerprint; any other deviation is reported).",
         note=TB + "tau atoms generalised to fresh positive reals; differentiator cross-checked numerically each run; r,q,q'>0, T>0",
         technique="contracts on the real functions; symbolic execution + ghost differentiation; z3 nlsat with hypothesis slicing"),
+    'C12': dict(
+        level='proof', ref='DESIGN.md 3/C12',
+        text="get_permeance is executed symbolically on an experiment list of arbitrary symbolic length (element i = (T_i, P_i, Ea_i)) for stated/unstated activation "
+             "energies x 3 experiment units: measured value at an experiment's temperature, Arrhenius factor of the nearest experiment elsewhere, result always in kg units; "
+             "calculate_activation_energy passes abscissa 1/T_i, ordinate ln P_i and the [x,1] design to lstsq and returns -slope*R; lemmas: data on an Arrhenius line "
+             "recover Ea and give the same permeance whichever experiment is nearest; molar selectivity = weight selectivity*M2/M1; pure-component flux branch-wise.",
+        note=TB + "assumed contracts: min(range,key=) returns a minimiser; numpy.linalg.lstsq returns the least-squares line (exact line for collinear data); "
+                  "get_penetrant_data (filter) verified on all concrete lists up to length 3 (quick) / 5 (thorough) - bounded part, labelled in evidence; uniform stated/unstated lists",
+        technique="contracts on the real functions; symbolic-length experiment list with uninterpreted element functions; z3; exp-product normalisation"),
 }
 
 NOT_YET = "check under construction (see DESIGN.md section 7); not claimed until every obligation is in place"
